@@ -130,7 +130,7 @@ impl Barrier {
         let mut spins = 0u64;
         while self.arrived.load(AO::SeqCst) < target {
             spins += 1;
-            if spins > 20_000 { std::thread::yield_now(); } else { std::hint::spin_loop(); }
+            if spins > 20_000 || cfg!(miri) { std::thread::yield_now(); } else { std::hint::spin_loop(); }
         }
     }
 }
@@ -381,7 +381,7 @@ pub fn run(shard: &Shard) -> i32 {
     }
     // (b) concurrent histories (real threads) and random sequential sequences of both stores.
     // To limit oversubscription only a quarter of the shards run real-thread histories at a time.
-    case_loop(shard, if small { 64 } else { u64::MAX }, |_i, rng| {
+    case_loop(shard, if small { 16 } else { u64::MAX }, |_i, rng| {
         if conc_only || shard.idx % 4 == 0 {
             with_acc(|a| concurrent_round(rng, a, small));
         } else if rng.chance(1, 2) {
